@@ -117,6 +117,18 @@ func c06(tier string) {
 		pr := &pair{}
 		kind := r.Intn(16) // drawn per case: every worker (cases i = k mod 16) sees every kind
 		switch {
+		case i < 16 && i%4 == 1:
+			// large profiles (36 and ~40 validations): generation of many rules, compared across fresh processes below
+			wp, wg := c10WideProfile()
+			if i%8 == 5 {
+				for k := 0; k < 8; k++ {
+					name := fmt.Sprintf("extra%d", k)
+					wp.Validations = append(wp.Validations, lib.Validation{Name: name, TargetClass: "ex.T", Message: "m " + name,
+						Body: lib.PC1(fmt.Sprintf("ex.q%d | ex.leaf%d^", k, k), lib.CNested(lib.PC1("ex.x", lib.CScalar("minCount", lib.Int(1)))), lib.CScalar("maxCount", lib.Int(3)))})
+					wp.Warning = append(wp.Warning, name)
+				}
+			}
+			pr.p, pr.d, pr.label = wp.Text(), wg.CanonicalJSONLD(), "large-profile"
 		case kind%4 == 3 && len(fx.Profiles) > 0 && len(fx.Data) > 0:
 			pr.p, pr.d, pr.label = fx.Profiles[r.Intn(len(fx.Profiles))], fx.Data[r.Intn(len(fx.Data))], "fixture"
 		case kind == 2:
